@@ -6,7 +6,10 @@ mod parse;
 use tvh_common::*;
 
 fn main() {
-    silence_panics();
+    guarded_main(run);
+}
+
+fn run() {
     let args = Args::from_env();
     match args.cmd() {
         "replay-time" => arith::replay(&args),
